@@ -165,6 +165,33 @@ def drive_default(chk, rng, thorough):
         events.append(ev)
         chk.case(("name", s), nontrivial=kind == "ok")
     chk.samples.append({"default_registry_event": {k: v for k, v in events[len(events) // 2].items() if k != "sp"}})
+    # case-insensitive lookup only adds spellings: prefix + symbol strings whose unit part collides with another unit up to
+    # letter case (m / M, s / S, g / G, h / H, ...) must keep their case-sensitive meaning
+    uci = pint.UnitRegistry(non_int_type=F, case_sensitive=False)
+    lower = {}
+    for sp_, cn_ in usp.items():
+        lower.setdefault(sp_.lower(), set()).add(cn_)
+    colliding = [sp_ for sp_ in usp if len(lower[sp_.lower()]) > 1 and sp_.isidentifier()]
+    for sp_ in colliding:
+        for pre in porder:
+            for suf in ("", "s"):
+                s_ = pre + sp_ + suf
+                # skip strings for which an earlier candidate (prefix earlier in file order, case-variant unit part) exists:
+                # the statement does not rank those against the exact-case reading
+                earlier = False
+                for p2 in porder:
+                    if p2 == pre:
+                        break
+                    if s_.startswith(p2) and (s_[len(p2):].lower() in lower or (s_.endswith("s") and s_[len(p2):-1].lower() in lower)):
+                        earlier = True
+                        break
+                if earlier or not s_.isidentifier():
+                    continue
+                a, b = real_resolve(fresh, s_), real_resolve(uci, s_)
+                chk.case(("casei", s_))
+                if a[0] == "ok" and a != b:
+                    chk.diverge({"clause": "case-insensitive-changes-exact-spelling", "class": "casei-ambiguity", "src": "default-registry"},
+                                {"string": s_, "case_sensitive": a, "case_insensitive": b})
     return events
 
 
